@@ -149,6 +149,48 @@ fn subjects(cfg: &FamCfg, quick: bool) -> Vec<Subject> {
 
 fn check_closest(acc: &mut Acc, idx: usize, s: &Subject, hp: HP, p: Point<f64>) {
         let loc = s.locate_exact(&hp);
+        // twins of every fourth case: the exact scales 2^-30 / 2^30 (the answer scales with the input), zero coordinates written as -0.0, and f32
+        if idx % 4 == 0 {
+            let want = s.d2(&hp).map(|d| d.f());
+            for sc in [1.0 / 1073741824.0, 1073741824.0] {
+                let gs = map_geom_f(&s.g, &|c| Coord { x: c.x * sc, y: c.y * sc });
+                let ps = Point::new(p.x() * sc, p.y() * sc);
+                acc.evals += 1;
+                let got = guard(|| gs.closest_point(&ps));
+                let ok = match (&got, want) {
+                    (Ok(Closest::Intersection(r)), _) => loc != E && *r == ps,
+                    (Ok(Closest::SinglePoint(r)), Some(w)) => {
+                        let d2 = ((r.x() - ps.x()) / sc).powi(2) + ((r.y() - ps.y()) / sc).powi(2);
+                        loc == E && (d2 - w).abs() <= 1e-9 * w && s.locate_tol(r.x() / sc, r.y() / sc) != E
+                    }
+                    _ => false,
+                };
+                if !ok {
+                    acc.viol(format!("closest_point does not scale with its input (scale 2^{}) {}", if sc < 1.0 { -30 } else { 30 }, tname(&s.g)), idx, || json!({"geometry": format!("{:?}", s.g), "query": [p.x(), p.y()], "scale": sc, "got": format!("{:?}", got), "exact_dist2_unscaled": want}));
+                }
+            }
+            acc.evals += 2;
+            let plain = guard(|| s.g.closest_point(&p));
+            let nz = guard(|| neg_zeros(&s.g, 1).closest_point(&Point::new(if p.x() == 0.0 { -0.0 } else { p.x() }, if p.y() == 0.0 { -0.0 } else { p.y() })));
+            if plain != nz {
+                acc.viol(format!("closest_point changes when zero coordinates are written as -0.0 {}", tname(&s.g)), idx, || json!({"geometry": format!("{:?}", s.g), "query": [p.x(), p.y()], "plain": format!("{:?}", plain), "with -0.0": format!("{:?}", nz)}));
+            }
+            let g32 = map_geom_g(&s.g, &|c| Coord { x: c.x as f32, y: c.y as f32 });
+            let p32 = geo::Point::<f32>::new(p.x() as f32, p.y() as f32);
+            let got32 = guard(|| g32.closest_point(&p32));
+            let ok32 = match (&got32, want) {
+                (Ok(Closest::Intersection(r)), _) => loc != E && *r == p32,
+                (Ok(Closest::SinglePoint(r)), Some(w)) => {
+                    let d2 = (r.x() as f64 - p.x()).powi(2) + (r.y() as f64 - p.y()).powi(2);
+                    loc == E && (d2 - w).abs() <= 1e-4 * (w + 0.01)
+                }
+                _ => false,
+            };
+            // (only on the unmapped lattice: f32 carries ~7 digits, so images with coordinates in the hundreds lose the small distances)
+            if !ok32 && s.fam != "image" && p.x().abs() <= 8.0 && p.y().abs() <= 8.0 && { use geo::CoordsIter; s.g.coords_iter().all(|c| c.x.abs() <= 16.0 && c.y.abs() <= 16.0) } {
+                acc.viol(format!("closest_point<f32> wrong {}", tname(&s.g)), idx, || json!({"geometry": format!("{:?}", s.g), "query": [p.x(), p.y()], "got": format!("{:?}", got32), "exact_dist2": want}));
+            }
+        }
         let locn = ["interior", "boundary", "exterior"][loc];
         acc.evals += 1;
         acc.class(format!("closest {} {}", tname(&s.g), ["interior", "boundary", "exterior"][loc]));
